@@ -459,4 +459,12 @@ def r4(F, R):
     R.floor(12)
 
 
-RULES = [("R1", r1, None), ("R2", r2, None), ("R3", r3, None), ("R4", r4, None)]
+def r5(F, R):
+    """The budget an attempt is checked against is the one resolved for *this* scenario: the resolver is called once per
+    enqueued scenario with the scenario's own feature, rule and scenario (C18.R5's call-site rule — a necessary condition of
+    "retried exactly when ... its retry budget is not exhausted")."""
+    from . import c18
+    c18.r5(F, R)
+
+
+RULES = [("R1", r1, None), ("R2", r2, None), ("R3", r3, None), ("R4", r4, None), ("R5", r5, None)]
